@@ -66,6 +66,7 @@ class Check:
         self.assumptions = []
         self.notes = {}
         self.trace_sources = {}
+        self.event_kinds = {}
         self.known = load_known()
         self.exhaustive = False
 
@@ -113,6 +114,10 @@ class Check:
         nev = sum(len(t.get("events", ())) for t in traces)
         self.events_validated += nev
         self.trace_sources[source or name] = self.trace_sources.get(source or name, 0) + len(traces)
+        for t in traces:
+            for e in t.get("events", ()):
+                key = e.get("a", "?") + ("" if e.get("out", "ok") == "ok" else ":rejected")
+                self.event_kinds[key] = self.event_kinds.get(key, 0) + 1
         by_tid = {t["tid"]: t for t in traces}
         for t in traces:
             self.distinct_cases.add(case_key(t) if case_key else default_case_key(t))
@@ -173,6 +178,7 @@ class Check:
             "samples": self.samples or [{"note": "no trace stage in this run"}],
             "model_checking_runs": self.mc_runs,
             "trace_sources": self.trace_sources,
+            "events_by_kind": self.event_kinds,
             "clauses_of_other_properties_seen": self.foreign,
             "known_findings_hit": {k: n for k, (_, n) in known_hits.items()},
             "violation_clauses": sorted({v.clause for v in unknown}),
